@@ -297,6 +297,13 @@ def u_ctl():
     add("ctl-multi", ["a: %s" % Q2, "b: %s" % Q2], Q2, ["c, d = a + 1, b + 2", "return c ^ d"])
     add("ctl-multi", ["a: Tuple[bool, bool]"], "bool", ["c, d = a", "return c and not d"])
     add("ctl-multi", ["a: Tuple[%s, bool]" % Q2], Q2, ["c, d = a", "return c if d else 0"])
+    # values rotated through three names (shift registers, Fibonacci-like loops)
+    add("ctl-multi", ["a: bool", "b: bool", "c: bool"], "bool", ["t = a", "u = b", "v = c", "t = u", "u = v", "v = t and a", "return (t ^ v) or u"])
+    add("ctl-multi", ["a: bool", "b: bool", "c: bool"], "Tuple[bool, bool, bool]", ["t, u, v = a, b, c", "for i in range(2):", "    t = u", "    u = v", "    v = t ^ u", "return (t, u, v)"])
+    add("ctl-multi", ["a: %s" % Q2, "b: %s" % Q2], Q2, ["t = a", "u = b", "v = a ^ b", "for i in range(3):", "    t = u", "    u = v", "    v = t + u", "return t"])
+    add("ctl-multi", ["a: %s" % Q2, "b: %s" % Q2], Q2, ["t = 0", "u = a", "v = b", "t = u", "u = v", "v = a + 1", "return t + u + v"])
+    add("ctl-multi", ["a: bool", "b: bool", "c: bool"], "bool", ["t = a", "u = t", "t = b", "v = u", "u = c", "return (v and not t) or (u ^ v)"])
+    add("ctl-multi", ["a: bool", "b: bool"], "Tuple[bool, bool]", ["t = a", "u = b", "w = t", "t = u", "u = w", "w = t and u", "return (w ^ t, u)"])
     # unpacking into targets that include the unpacked tuple itself
     add("ctl-multi", ["t: Tuple[Tuple[bool, bool], bool]"], "bool", ["t, u = t", "return t[0] and u"])
     add("ctl-multi", ["t: Tuple[bool, Tuple[bool, bool]]"], "bool", ["u, t = t", "return (t[0] ^ u) and t[1]"])
